@@ -120,7 +120,10 @@ def solve_scipy(
     obj_fn = cache["obj_fn"]
     grad_fn = cache["grad_fn"]
     scipy_constraints = cache["scipy_constraints"]
-    bounds = cache["bounds"]
+    # Bounds are attributes of the variables and may be edited between solves:
+    # read them now rather than from the cache built at the first solve.
+    bounds = _current_bounds(variables)
+    cache["bounds"] = bounds
 
     def objective(x: np.ndarray) -> float:
         return float(obj_fn(x))
@@ -324,6 +327,16 @@ def _compute_initial_point(
     return x0
 
 
+def _current_bounds(variables: list) -> list[tuple[float, float]]:
+    """Current (lb, ub) of each variable, with None mapped to +/-inf."""
+    bounds = []
+    for v in variables:
+        lb = v.lb if v.lb is not None else -np.inf
+        ub = v.ub if v.ub is not None else np.inf
+        bounds.append((lb, ub))
+    return bounds
+
+
 def _build_solver_cache(problem: Problem, variables: list) -> dict[str, Any]:
     """Build and cache compiled callables for the solver.
 
@@ -356,12 +369,7 @@ def _build_solver_cache(problem: Problem, variables: list) -> dict[str, Any]:
     cache["grad_fn"] = compile_jacobian([obj_expr], variables)
 
     # Build bounds
-    bounds = []
-    for v in variables:
-        lb = v.lb if v.lb is not None else -np.inf
-        ub = v.ub if v.ub is not None else np.inf
-        bounds.append((lb, ub))
-    cache["bounds"] = bounds
+    cache["bounds"] = _current_bounds(variables)
 
     # Build constraints for SciPy
     scipy_constraints = []
